@@ -250,6 +250,8 @@ class Mol:
         s += el + (a["chi"] or "")
         if a["h"]:
             s += "H" if (a["h"] == 1 and rng_bits & 1) else "H%d" % a["h"]
+        elif rng_bits & 4 and (rng_bits >> 1) % 3 == 0:
+            s += "H0"            # an explicit zero hydrogen count
         ch = a["ch"]
         if ch:
             style = (rng_bits >> 1) % 3
